@@ -357,6 +357,11 @@ func TestC02EditScripts(t *testing.T) {
 // TestC02BitFlips: every single-bit flip of one whole record (header, body and
 // both MACs), for several record sizes and positions in the stream (first,
 // middle, right after a key rotation), XX and KK, both directions.
+// flipPositions are the (zero-based) stream positions at which TestC02BitFlips
+// attacks a record: the first ones and the ones around the key rotations after
+// 500 and 1000 records.
+var flipPositions = []int{0, 1, 2, 498, 499, 500, 501, 999, 1000}
+
 func TestC02BitFlips(t *testing.T) {
 	const unit = "TestC02BitFlips"
 	rec := stats.New(t, "C02", unit)
@@ -382,71 +387,48 @@ func TestC02BitFlips(t *testing.T) {
 	for _, pat := range []string{"XX", "KK"} {
 		for dir := 0; dir < 2; dir++ {
 			for _, size := range sizes {
-				for _, pos := range []int{0, 2, 501} { // 501: first record after the rotation at 500 records
-					idx++
-					if idx%shards != shard {
+				idx++
+				if idx%shards != shard {
+					continue
+				}
+				cfg := hsConfig{Pattern: pat, IMin: 0, IMax: 2, RMin: 0, RMax: 2, Seed: seed, AuthLen: 16, PassMode: "same", IKnowsR: true, RKnowsI: true}
+				// One session per (pattern, direction, size). At every attacked
+				// position all single-bit flips of the record are offered to
+				// value copies of the reader (the AEAD holds no state besides
+				// its key, so a copy of the Machine is an independent reader in
+				// the same state); then the genuine record is delivered and the
+				// session goes on. Positions: the first records, and the records
+				// around the key rotation (the 500th record is the last one
+				// under the first key; its body is where the rotation happens).
+				p, err := established(cfg)
+				if err != nil {
+					t.Fatal(err)
+				}
+				w, r := p.I.m, p.R.m
+				if dir == 1 {
+					w, r = p.R.m, p.I.m
+				}
+				attacked := map[int]bool{}
+				for _, x := range flipPositions {
+					attacked[x] = true
+				}
+				last := flipPositions[len(flipPositions)-1]
+				pt := entropy(seed, "flip", size)
+				for pos := 0; pos <= last; pos++ {
+					if !attacked[pos] {
+						wire, _ := writeRecord(w, []byte{byte(pos)})
+						if _, err := safeRead(r, bytes.NewReader(wire)); err != nil {
+							t.Fatalf("untouched record %d failed: %v", pos, err)
+						}
 						continue
 					}
-					cfg := hsConfig{Pattern: pat, IMin: 0, IMax: 2, RMin: 0, RMax: 2, Seed: seed, AuthLen: 16, PassMode: "same", IKnowsR: true, RKnowsI: true}
-					// One session; the attacked record is at position pos; the
-					// flips are applied to fresh copies of the captured stream.
-					p, err := established(cfg)
-					if err != nil {
-						t.Fatal(err)
-					}
-					w, r := p.I.m, p.R.m
-					if dir == 1 {
-						w, r = p.R.m, p.I.m
-					}
-					var prefix []byte
-					for i := 0; i < pos; i++ {
-						wire, _ := writeRecord(w, []byte{byte(i)})
-						prefix = append(prefix, wire...)
-					}
-					// consume the prefix so that reader and writer are in step
-					rd := bytes.NewReader(prefix)
-					for i := 0; i < pos; i++ {
-						if _, err := safeRead(r, rd); err != nil {
-							t.Fatalf("prefix record %d failed: %v", i, err)
-						}
-					}
-					pt := entropy(seed, "flip", size)
 					wire, _ := writeRecord(w, pt)
-					st := r.VerifState()
-					_ = st
 					for bit := 0; bit < len(wire)*8; bit++ {
 						mut := append([]byte(nil), wire...)
 						mut[bit/8] ^= 1 << uint(bit%8)
-						// The reader's cipher state advances even on failure,
-						// so each flip needs a reader in the pre-record state:
-						// re-establish deterministically (same seed) and replay
-						// the prefix only when cheap, otherwise use the fact
-						// that a failed header decrypt consumes one nonce: we
-						// re-create the session for every flip for pos <= 2
-						// and sample bits for the rotation position.
-						if pos > 2 && bit%7 != 0 {
-							continue
-						}
-						p2, _ := established(cfg)
-						w2, r2 := p2.I.m, p2.R.m
-						if dir == 1 {
-							w2, r2 = p2.R.m, p2.I.m
-						}
-						var pre []byte
-						for i := 0; i < pos; i++ {
-							x, _ := writeRecord(w2, []byte{byte(i)})
-							pre = append(pre, x...)
-						}
-						rd2 := bytes.NewReader(pre)
-						for i := 0; i < pos; i++ {
-							_, _ = safeRead(r2, rd2)
-						}
-						wire2, _ := writeRecord(w2, pt)
-						if !bytes.Equal(wire2, wire) {
-							t.Fatalf("session not deterministic")
-						}
-						got, err := safeRead(r2, bytes.NewReader(mut))
-						rec.Case(true, fmt.Sprintf("%s/%d/%d/%d/%d", pat, dir, size, pos, bit), "bitflip_"+pat)
+						cp := *r
+						got, err := safeRead(&cp, bytes.NewReader(mut))
+						rec.Case(true, fmt.Sprintf("%s/%d/%d/%d/%d", pat, dir, size, pos, bit), "bitflip_"+pat, fmt.Sprintf("bitflip_at_record_%d", pos))
 						if err == nil {
 							nviol++
 							if nviol < 5 {
@@ -458,11 +440,15 @@ func TestC02BitFlips(t *testing.T) {
 							rec.Violation("reader panicked on a flipped bit: "+err.Error(), "c02", c02Case{Cfg: cfg, Via: "machine", Dir: dir, Lens: []int{size}})
 						}
 					}
+					got, err := safeRead(r, bytes.NewReader(wire))
+					if err != nil || !bytes.Equal(got, pt) {
+						t.Fatalf("genuine record %d failed: %v", pos, err)
+					}
 				}
 			}
 		}
 	}
-	rec.Sample(map[string]any{"enumerated": "every single-bit flip of one whole record (header+MAC+body+MAC)", "sizes": sizes, "positions": []int{0, 2, 501}, "patterns": []string{"XX", "KK"}, "directions": 2, "note": "position 501 (after a key rotation) samples every 7th bit"})
+	rec.Sample(map[string]any{"enumerated": "every single-bit flip of one whole record (header+MAC+body+MAC)", "sizes": sizes, "positions": flipPositions, "patterns": []string{"XX", "KK"}, "directions": 2})
 	rec.SetExhaustive(true)
 	rec.Done()
 	if nviol > 0 {
